@@ -905,6 +905,26 @@ def r35_unwrap_or_else(src, item, ed, opts):
         ed.count("R35")
 
 
+def r36_for_chars(src, item, ed, opts):
+    """`for C in S.chars() { B }` -> `let mut it = vx_chars(S); while let Some(C) = it.next() { B }`
+    (for_chars=[{over="val.chars()", it="vx_it"}]): what a `for` over an iterator is by definition"""
+    loops = nodes_of(item, "loop")
+    for sp in opts.get("for_chars", []):
+        n = pick_loop(src, loops, sp, item["path"])
+        if n is None:
+            if "over" in sp:
+                continue
+            raise LostAnchor(f"for-loop #{sp.get('n')} of {item['path']}")
+        ex = src.text(*n["expr"]).strip()
+        m = re.fullmatch(r"(.+)\.chars\(\)", ex, re.S)
+        if not m or n["loop_kind"] != "for":
+            raise Unsupported(f"R36 expects `for c in S.chars()`, found `{ex}`")
+        it = sp.get("it", "vx_it")
+        pat = src.text(*n["pat"])
+        ed.replace(n["range"][0], n["body"][0], f"let mut {it} = vx_chars({m.group(1).strip()}); {sp.get('ghost_after_let', '')} while let Some({pat}) = {it}.next() ", "R36")
+        ed.count("R36")
+
+
 RULES = {
     "R6": r6_mem_replace,
     "R18": r18_rendering_error,
@@ -926,8 +946,10 @@ RULES = {
     "R30": r30_for_map,
     "R32": r32_for_into_iter_rev,
     "R35": r35_unwrap_or_else,
+    "R36": r36_for_chars,
     "R32": r32_for_into_iter_rev,
     "R35": r35_unwrap_or_else,
+    "R36": r36_for_chars,
     "R24": r24_call_shim,
 }
 
